@@ -19,9 +19,13 @@ func c03Scenarios() []histParams {
 	// back-pressure: more relevant txs relayed back to back than the node's tx channel buffers (100)
 	burst := txCfg(1)
 	burst.Burst = 104
+	contracts := txCfg(1)
+	contracts.Contracts = true
 	evB := []string{"burst:T", "burst:U1", "tx:T:R1", "mine+:R1", "mine:B000,B103", "ans", "tick:250", "settle"}
 	return []histParams{{Prop: "C03", Cfg: txCfg(1), Boot: "synced", Events: ev, Tx: true},
-		{Prop: "C03", Cfg: burst, Boot: "synced", Events: evB, Tx: true}}
+		{Prop: "C03", Cfg: burst, Boot: "synced", Events: evB, Tx: true},
+		// a client that subscribes to contract-wide actions only (no push data)
+		{Prop: "C03", Cfg: contracts, Boot: "synced", Events: []string{"tx:T:K1", "tx:U1:K1", "tx:T:K2", "tx:T:R1", "local:K1", "mine+:K1", "mine+:K1,K2", "mine+:R1", "restart", "tick:250"}, Tx: true, ContractsOnly: true}}
 }
 
 func init() {
